@@ -85,6 +85,15 @@ module Nat =
 
   let ltb n0 m =
     leb (S n0) m
+
+  (** val min : nat -> nat -> nat **)
+
+  let rec min n0 m =
+    match n0 with
+    | O -> O
+    | S n' -> (match m with
+               | O -> O
+               | S m' -> S (min n' m'))
  end
 
 (** val tl : 'a1 list -> 'a1 list **)
@@ -8897,7 +8906,7 @@ let prog_table =
         (String ((Ascii (true, true, false, false, true, true, true, false)),
         EmptyString)))) :: [])), SSkip)) :: ((SFound (KeywordEnd,
       Z0)) :: ((SPush st_stateExpectKeyword) :: ((SSetStep
-      st_stateParameterOrAnnotationAfterFirstSpace) :: (SRetNil :: []))))))) :: (((String
+      st_stateParameterOrAnnotation) :: (SRetNil :: []))))))) :: (((String
     ((Ascii (true, true, false, false, true, true, true, false)), (String
     ((Ascii (false, false, true, false, true, true, true, false)), (String
     ((Ascii (true, false, false, false, false, true, true, false)), (String
@@ -12338,9 +12347,10 @@ let compile_macros enum_check fuel roots =
         | CErr e -> XErr e
         | CPanic p -> XPanic p
         | CFuel -> XFuel)
-     | e :: l -> (match l with
-                  | [] -> XErr e
-                  | _ :: es -> XErrOneOf es))
+     | e :: l ->
+       (match l with
+        | [] -> XErr e
+        | c :: l0 -> XErrOneOf (e :: (c :: l0))))
   | CErr e -> XErr e
   | CPanic p -> XPanic p
   | CFuel -> XFuel
@@ -12461,7 +12471,41 @@ let tree_case fs root ot et fuel =
           in
           TScanned ((map (render_dir render_depth files) st.cs_forest),
           st.cs_log,
-          (match compile_macros echeck fuel st.cs_forest with
+          (match compile_macros echeck
+                   (Nat.min fuel (S (S (S (S (S (S (S (S (S (S (S (S (S (S (S
+                     (S (S (S (S (S (S (S (S (S (S (S (S (S (S (S (S (S (S (S
+                     (S (S (S (S (S (S (S (S (S (S (S (S (S (S (S (S (S (S (S
+                     (S (S (S (S (S (S (S (S (S (S (S (S (S (S (S (S (S (S (S
+                     (S (S (S (S (S (S (S (S (S (S (S (S (S (S (S (S (S (S (S
+                     (S (S (S (S (S (S (S (S (S (S (S (S (S (S (S (S (S (S (S
+                     (S (S (S (S (S (S (S (S (S (S (S (S (S (S (S (S (S (S (S
+                     (S (S (S (S (S (S (S (S (S (S (S (S (S (S (S (S (S (S (S
+                     (S (S (S (S (S (S (S (S (S (S (S (S (S (S (S (S (S (S (S
+                     (S (S (S (S (S (S (S (S (S (S (S (S (S (S (S (S (S (S (S
+                     (S (S (S (S (S (S (S (S (S (S (S (S (S (S (S (S (S (S (S
+                     (S (S (S (S (S (S (S (S (S (S (S (S (S (S (S (S (S (S (S
+                     (S (S (S (S (S (S (S (S (S (S (S (S (S (S (S (S (S (S (S
+                     (S (S (S (S (S (S (S (S (S (S (S (S (S (S (S (S (S (S (S
+                     (S (S (S (S (S (S (S (S (S (S (S (S (S (S (S (S (S (S (S
+                     (S (S (S (S (S (S (S (S (S (S (S (S (S (S (S (S (S (S (S
+                     (S (S (S (S (S (S (S (S (S (S (S (S (S (S (S (S (S (S (S
+                     (S (S (S (S (S (S (S (S (S (S (S (S (S (S (S (S (S (S (S
+                     (S (S (S (S (S (S (S (S (S (S (S (S (S (S (S (S (S (S (S
+                     (S (S (S (S (S (S (S (S (S (S (S (S (S (S (S (S (S (S (S
+                     (S (S (S (S (S (S (S (S (S (S (S (S (S (S (S (S (S (S (S
+                     (S (S (S (S (S (S (S (S (S (S (S (S (S (S (S (S (S (S (S
+                     (S (S (S (S (S (S (S (S (S (S (S (S (S (S (S (S (S (S (S
+                     (S (S (S (S (S (S (S (S (S (S (S (S (S (S (S (S (S (S (S
+                     (S (S (S (S (S (S (S (S (S (S (S (S (S (S (S (S (S (S (S
+                     (S (S (S (S (S (S (S (S (S (S (S (S (S (S (S (S (S (S (S
+                     (S (S (S (S (S (S (S (S (S (S (S (S (S (S (S (S (S (S (S
+                     (S (S (S (S (S (S (S (S (S (S (S (S (S (S (S (S (S (S (S
+                     (S (S (S (S (S (S (S (S (S (S (S (S (S (S (S (S (S (S (S
+                     (S (S (S (S (S (S (S (S (S (S (S (S (S (S (S (S (S (S (S
+                     (S (S (S (S (S (S (S (S (S (S (S (S (S (S (S (S (S (S (S
+                     (S (S (S (S (S (S (S (S (S (S (S (S (S (S (S
+                     O)))))))))))))))))))))))))))))))))))))))))))))))))))))))))))))))))))))))))))))))))))))))))))))))))))))))))))))))))))))))))))))))))))))))))))))))))))))))))))))))))))))))))))))))))))))))))))))))))))))))))))))))))))))))))))))))))))))))))))))))))))))))))))))))))))))))))))))))))))))))))))))))))))))))))))))))))))))))))))))))))))))))))))))))))))))))))))))))))))))))))))))))))))))))))))))))))))))))))))))))))))))))))))))))))))))))))))))))))))))))))))))))))))))))))))))))))))))))))))))))))))))))))))))))))))))))))))))))))))))))))))))))))))))))))))))))))))))))))))))))))))))))))))))))))))))))))))))))))))))))))
+                   st.cs_forest with
            | XOk ex ->
              T2Ok ((map (render_dir render_depth files) ex.ex_roots),
                (map fst ex.ex_macros),
